@@ -81,7 +81,10 @@ Definition rsContains (rs : RuneSet) (r : Z) : res bool :=
   if pos <? 0 then Ok false
   else Ok (negb (Z.land (znth 0 (p_set (znth dpage rs pos)) (word_idx r)) (Z.shiftl 1 (bit_idx r)) =? 0)).
 
-(* RuneSet.rsIncludes: a rsIncludes b; fuel = len a + len b + 1 *)
+(* RuneSet.rsIncludes: a rsIncludes b; fuel = len a + len b + 1.  After the `fix:` commit "RuneSet.includes ignores the
+   empty pages left behind by Delete": a page of b whose ref is not in a is accepted when it is all-zero
+   (bEntry.set != (pageSet{})), and a page ref not found by findPageFrom resumes the walk at its insertion point. *)
+Definition set_is_zero (s : pageSet) : bool := forallb (fun w => w =? 0) s.
 Fixpoint includes_loop (fuel : nat) (a b : RuneSet) (bi ai : Z) : res bool :=
   if (bi <? zlen b) && (ai <? zlen a) then
     match fuel with
@@ -91,12 +94,13 @@ Fixpoint includes_loop (fuel : nat) (a b : RuneSet) (bi ai : Z) : res bool :=
         let ae := znth dpage a ai in
         if p_ref be =? p_ref ae then
           if pageSet_includes (p_set ae) (p_set be) then includes_loop f a b (bi + 1) (ai + 1) else Ok false
-        else if p_ref be <? p_ref ae then Ok false
+        else if p_ref be <? p_ref ae then
+          if set_is_zero (p_set be) then includes_loop f a b (bi + 1) ai else Ok false
         else
           do ai' <- findPageFrom a (ai + 1) (p_ref be);
-          if ai' <? 0 then Ok false else includes_loop f a b bi ai'
+          includes_loop f a b bi (if ai' <? 0 then - ai' - 1 else ai')
     end
-  else Ok (zlen b <=? bi).
+  else Ok (forallb (fun p => set_is_zero (p_set p)) (zskipn bi b)).
 Definition rsIncludes (a b : RuneSet) : res bool := includes_loop (S (length a + length b)) a b 0 0.
 
 (* bits.OnesCount32 *)
